@@ -3,8 +3,10 @@
 records which checks report it: applies patch.diff to /repo, runs every check, restores /repo."""
 import json, os, shutil, subprocess, sys, re, fcntl
 lock = open("/tmp/seedout/.repo.lock", "w"); fcntl.flock(lock, fcntl.LOCK_EX)
+SEEDOUT = os.environ.get("SEEDOUT", "/tmp/seedout")     # where the sub-agent delivered
+SUB = os.environ.get("SEEDSUB", "")                       # e.g. "round2": store under /verif/seeded/<Cnn>/round2
 for pid in sys.argv[1:]:
-    src = f"/tmp/seedout/{pid}"; dst = f"/verif/seeded/{pid}"
+    src = f"{SEEDOUT}/{pid}"; dst = f"/verif/seeded/{pid}" + ("/" + SUB if SUB else "")
     v = json.load(open(f"{src}/verify.json"))
     if not (v["build"] == "ok" and v["existing_suite"] == "ok" and v["demo_on_unchanged_tree"] == "pass" and v["demo_on_changed_tree"] == "fail"):
         print(pid, "NOT CONFIRMED", v); continue
@@ -17,7 +19,7 @@ for pid in sys.argv[1:]:
     assert subprocess.run(["git", "-C", "/repo", "diff", "--quiet"]).returncode == 0, "/repo not clean"
     subprocess.run(["git", "-C", "/repo", "apply", f"{dst}/patch.diff"], check=True)
     try:
-        env = dict(os.environ, PVCHECK_OUT=f"/tmp/seedout/{pid}/ev")
+        env = dict(os.environ, PVCHECK_OUT=f"{src}/ev")
         out = subprocess.run(["/verif/check", "all", "quick"], capture_output=True, text=True, env=env).stdout
     finally:
         subprocess.run(["git", "-C", "/repo", "checkout", "--", "."], check=True)
